@@ -14,6 +14,7 @@ and variant.
 import io
 import random
 
+from rv import formats
 from rv import fmt_treeinfo as F
 
 PROPERTY = "C17"
@@ -47,6 +48,8 @@ def _pm():
 def gen_case(rng, i):
     force = ["src-tree", "several-platforms", None, "paths-all", "paths-none", "dashed-top-optional", None, "depth-3", "many-variants", "name-carries-version", "two-dashed-top-optionals"][i % 11]
     D = F.gen_description(rng, force, hostile=(i % 3 == 0))
+    if force is None and rng.random() < 0.3:
+        formats.equalise("treeinfo", D, rng)
     # make path subsets of packages/repository/source_* diverse
     for v in F.iter_nodes(D["variants"]):
         r = rng.random()
